@@ -188,6 +188,28 @@ def sym_inv(M):
     return Z
 
 
+def sym_norm(x, ord=None, axis=None, keepdims=False):
+    if not core.active() or not has_sym(x):
+        return wrap(_np.linalg.norm(unwrap(x) if core.active() else x, ord=ord, axis=axis, keepdims=keepdims)) if core.active() \
+            else _np.linalg.norm(x, ord=ord, axis=axis, keepdims=keepdims)
+    a = funcs._as_sarr(_unlazy(x))
+    if axis is not None or keepdims or a.ndim != 1:
+        raise Unsupported('numpy.linalg.norm beyond vector norms on symbolic values')
+    cs = [core.as_sfloat(c) for c in a.cells()]
+    ab = [core.ite(c < 0, -c, c) for c in cs]
+    if ord == 1:
+        return sum(ab[1:], ab[0]) if ab else 0.0
+    if ord in (None, 2):
+        return core.fl_sqrt(sum([c * c for c in cs][1:], cs[0] * cs[0])) if cs else 0.0
+    if ord in (_np.inf, float('inf')):
+        m = ab[0]
+        for c in ab[1:]:
+            m = core.ite(m < c, c, m)
+        return m
+    raise Unsupported('numpy.linalg.norm ord=%r on symbolic values' % (ord,))
+
+
+funcs.SUB.setdefault('linalg', {})['norm'] = sym_norm
 funcs.SUB.setdefault('linalg', {})['solve'] = sym_solve
 funcs.SUB.setdefault('linalg', {})['inv'] = sym_inv
 
